@@ -1180,6 +1180,61 @@ fn gen_expr(r: &mut Rng, enc: Encoding, bases: &[write::UnitEntryId], locals: &[
     x
 }
 
+/// Raw expression bytes with constants in NON-canonical forms next to forward and backward
+/// branches: conversion re-encodes the constants (their size changes) and has to retarget
+/// the branches.  (Byte layout only; what the bytes mean is read back by gimli's reader.)
+fn gen_raw_expr(r: &mut Rng, endian: RunTimeEndian) -> write::Expression {
+    let le = endian == RunTimeEndian::Little;
+    let fix = |v: u64, n: usize| -> Vec<u8> {
+        let b = v.to_le_bytes()[..n].to_vec();
+        if le { b } else { b.into_iter().rev().collect() }
+    };
+    let small = |r: &mut Rng| *r.pick(&[0u64, 1, 5, 31, 32, 127, 128, 255, 256, 65535, 65536]);
+    let mut x: Vec<u8> = Vec::new();
+    match r.below(3) {
+        0 => {
+            // lit0; bra +9 (over const8u); const8u v; const2u w; plus
+            x.push(0x30);
+            x.push(0x28);
+            x.extend(fix(9, 2));
+            x.push(0x0e);
+            x.extend(fix(small(r), 8));
+            x.push(0x0a);
+            x.extend(fix(small(r) & 0xffff, 2));
+            x.push(0x22);
+        }
+        1 => {
+            // const4u v; skip +3 (over const2u); const2u w; const1u b; bra -16 (to the start)
+            x.push(0x0c);
+            x.extend(fix(small(r) & 0xffff_ffff, 4));
+            x.push(0x2f);
+            x.extend(fix(3, 2));
+            x.push(0x0a);
+            x.extend(fix(small(r) & 0xffff, 2));
+            x.push(0x08);
+            x.push(small(r) as u8);
+            x.push(0x28);
+            x.extend(fix((-16i16) as u16 as u64, 2));
+        }
+        _ => {
+            // const1s; const2s; const4s; const8s; bra +0 (to the end); skip -4 (to the bra... i.e. itself's predecessor)
+            x.push(0x09);
+            x.push(small(r) as u8);
+            x.push(0x0b);
+            x.extend(fix(small(r) & 0xffff, 2));
+            x.push(0x0d);
+            x.extend(fix(small(r) & 0xffff_ffff, 4));
+            x.push(0x0f);
+            x.extend(fix(small(r).wrapping_neg(), 8));
+            x.push(0x28);
+            x.extend(fix(3, 2));
+            x.push(0x2f);
+            x.extend(fix((-15i16) as u16 as u64, 2));
+        }
+    }
+    write::Expression::raw(x)
+}
+
 fn gen_dwarf(seed: u64, endian: RunTimeEndian) -> Result<Secs, String> {
     let mut r = Rng::new(seed);
     let mut dwarf = write::Dwarf::new();
@@ -1373,6 +1428,8 @@ fn gen_dwarf(seed: u64, endian: RunTimeEndian) -> Result<Secs, String> {
                             }
                             let id = dwarf.units.get_mut(*uid).locations.add(write::LocationList(list));
                             write::AttributeValue::LocationListRef(id)
+                        } else if r.chance(1, 5) {
+                            write::AttributeValue::Exprloc(gen_raw_expr(&mut r, endian))
                         } else {
                             write::AttributeValue::Exprloc(gen_expr(&mut r, enc, &bases, &locals, &globals, 0))
                         }
